@@ -25,7 +25,12 @@ PROP = 'C17'
 LEAN_MODULES = ['Femio.Props.C17']
 THEOREMS = ['C17_arr_mat_inverse', 'C17_principal', 'C17_principal_array', 'C17_invert_strain', 'C17_lte_roundtrip',
             'C17_align_nnz']
-PARTIAL = []
+PARTIAL = ['clause "does not modify the caller\'s array": no theorem (numpy aliasing), checked on the implementation by '
+           'snapshot comparison for every helper and memory layout',
+           'np.linalg.eigh is not modelled: its post-condition (IsEigh, ascending) is the explicit hypothesis of '
+           'C17_principal / C17_principal_array / C17_invert_strain / C17_lte_roundtrip, evaluated exactly on every captured call',
+           'convert_lte_*: only global -> local -> global is claimed by the property and proved (local -> global -> local '
+           'cannot return the original values when the stored eigenvalues are not ascending)']
 RULE = ('batches of 1..6 symmetric tensors (random dyadic / decimal / integer-valued entries, scale 1e-6..1e6, rotated '
         'diag(l,l,m) with repeated eigenvalues, isotropic, zero, one eigenvalue 1e-12 (near-singular), strains with '
         '1+l down to 1e-3) x component order (all 720 permutations in the thorough tier, a random sample + identity + '
@@ -41,7 +46,8 @@ ASSUMPTIONS = [
     'values are normal binary64 numbers with |x| <= 1e300 (x/2*2 is not exact on denormals)',
     '"does not modify the caller\'s array" is an aliasing fact of numpy fancy indexing: checked on the implementation '
     'by snapshot comparison, not a theorem',
-    'align_nnz inputs are canonical (no duplicate entries) and |values| <= 2^40 so that D is exact',
+    'align_nnz inputs are canonical (no duplicate cells, all inside the shape: the hypothesis hwf of C17_align_nnz, true by '
+    'construction of the generator and asserted per case); D is compared within one rounding',
 ]
 TRUSTED = ['C17: np.linalg.eigh is wrapped by the harness to capture its argument and result (copied before femio '
            'overwrites the third eigenvector in place)']
@@ -431,6 +437,9 @@ def check_align(ctx, case):
     fails = []
     mats = [build_sparse(s) for s in case['mats']]
     r, c = case['mats'][0]['shape']
+    for s_ in case['mats']:      # hypothesis hwf of the theorem
+        cells_ = [(e[0], e[1]) for e in s_['entries']]
+        assert len(set(cells_)) == len(cells_) and all(0 <= i < r and 0 <= j < c for i, j in cells_)
     snap = [(m.tocoo().row.copy(), m.tocoo().col.copy(), m.data.copy(), m.toarray()) for m in mats]
     out = fn.align_nnz(mats)
     # (scipy canonicalises unsorted inputs in place when adding; the property does not claim anything about the
@@ -463,7 +472,7 @@ def check_align(ctx, case):
         t = C.Toks(ctx.driver.ask(' '.join(toks))[3:])
         mD = t.rat()
         mm = t.lst(lambda: t.lst(lambda: (t.nat(), t.nat(), t.rat())))
-        if mD != F(float(D)):
+        if abs(float(mD) - D) > 4e-16 * D:        # the real D is rounded once more than the exact one
             ctx.disagree('align_nnz dummy scale', case, D, str(mD))
         else:
             for o, mo in zip(out, mm):
@@ -476,6 +485,21 @@ def check_align(ctx, case):
                     break
         ctx.count('compared:align_nnz matrices', len(mats))
     return fails
+
+
+def guarded(f, ctx, case):
+    """an exception raised inside femio on an input of the quantifier is a failure of the property (the helpers are
+    total on these inputs); an exception of the harness itself is re-raised"""
+    import traceback
+    try:
+        return f(ctx, case)
+    except Exception as e:
+        frames = traceback.extract_tb(e.__traceback__)
+        if any('/femio/' in fr.filename for fr in frames):
+            where = [fr for fr in frames if '/femio/' in fr.filename][-1]
+            return [(f'raises:{where.name}:{type(e).__name__}', f'{where.name} raises {type(e).__name__}: {e}',
+                     {'line': where.lineno})]
+        raise
 
 
 CHECKS = {'arrmat': check_arrmat, 'principal': check_principal, 'strain': check_strain, 'lte': check_lte, 'align': check_align}
@@ -515,6 +539,8 @@ def run(ctx):
         orders = perms
 
     def record(kind, case, fails, key, sample, nontrivial=True):
+        if callable(fails):
+            fails = guarded(fails, ctx, case)
         ctx.case((kind, key), sample=sample, nontrivial=nontrivial)
         ctx.count(f'helper:{kind}')
         for sig, what, obs in fails:
@@ -526,7 +552,7 @@ def run(ctx):
             a, ts, kinds = batch(rnd, order, eng)
             a, layout = layouts(rnd, a)
             case = {'a': a.tolist(), 'order': list(order), 'eng': eng, 'layout': layout}
-            record('arrmat', case, check_arrmat(ctx, case), (a.tobytes(), order, eng), {'order': list(order), 'eng': eng, 'a': a.tolist()[:2], 'layout': layout},
+            record('arrmat', case, check_arrmat, (a.tobytes(), order, eng), {'order': list(order), 'eng': eng, 'a': a.tolist()[:2], 'layout': layout},
                    nontrivial=bool(np.any(a)))
             ctx.count(f'layout:{layout}')
             for k in kinds:
@@ -537,31 +563,31 @@ def run(ctx):
         eng = rnd.random() < .7
         a = np.array([[rnd.randint(-9, 9) for _ in range(6)] for _ in range(rnd.randint(1, 3))])
         case = {'a': a.tolist(), 'order': list(order), 'eng': eng, 'layout': 'C', 'dtype': 'int'}
-        record('arrmat', case, check_arrmat(ctx, case), ('int', a.tobytes(), order, eng), None)
+        record('arrmat', case, check_arrmat, ('int', a.tobytes(), order, eng), None)
         ctx.count('stream:int-dtype')
     # 2. principal components / array_from_eigens
-    for order in rnd.sample(orders, ctx.n(40, 300)):
+    for order in rnd.sample(orders, ctx.n(60, 300)):
         for eng in (False, True):
             a, ts, kinds = batch(rnd, order, eng)
             case = {'a': a.tolist(), 'order': list(order), 'eng': eng}
-            record('principal', case, check_principal(ctx, case), (a.tobytes(), order, eng),
+            record('principal', case, check_principal, (a.tobytes(), order, eng),
                    {'order': list(order), 'eng': eng, 'a': a.tolist()[:2], 'kinds': kinds}, nontrivial=bool(np.any(a)))
     # 3. invert_strain (default order only: the function has no order option)
-    for _ in range(ctx.n(60, 500)):
+    for _ in range(ctx.n(120, 500)):
         eng = rnd.random() < .5
         a, ts, kinds = batch(rnd, tuple(range(6)), eng, strain=True)
         case = {'a': a.tolist(), 'eng': eng}
-        record('strain', case, check_strain(ctx, case), (a.tobytes(), eng), {'eng': eng, 'a': a.tolist()[:2], 'kinds': kinds},
+        record('strain', case, check_strain, (a.tobytes(), eng), {'eng': eng, 'a': a.tolist()[:2], 'kinds': kinds},
                nontrivial=bool(np.any(a)))
     # 4. lte global -> local -> global
-    for _ in range(ctx.n(25, 200)):
+    for _ in range(ctx.n(40, 200)):
         a, ts, kinds = batch(rnd, tuple(range(6)), True)
         case = {'f': a.tolist()}
-        record('lte', case, check_lte(ctx, case), a.tobytes(), {'f': a.tolist()[:2], 'kinds': kinds}, nontrivial=bool(np.any(a)))
+        record('lte', case, check_lte, a.tobytes(), {'f': a.tolist()[:2], 'kinds': kinds}, nontrivial=bool(np.any(a)))
     # 5. align_nnz
-    for _ in range(ctx.n(150, 1500)):
+    for _ in range(ctx.n(300, 1500)):
         case = gen_align(rnd)
-        record('align', case, check_align(ctx, case), repr(case), {'mats': case['mats'][:2]},
+        record('align', case, check_align, repr(case), {'mats': case['mats'][:2]},
                nontrivial=any(s['entries'] for s in case['mats']))
         ctx.count(f'align:fmt={case["mats"][0]["fmt"]}')
         ctx.count(f'align:k={len(case["mats"])}')
@@ -571,5 +597,5 @@ def run(ctx):
 def replay(ctx, obj):
     case = dict(obj['input'])
     kind = case.pop('kind')
-    fails = CHECKS[kind](ctx, case)
+    fails = guarded(CHECKS[kind], ctx, case)
     return {'fails': bool(fails), 'failures': [{'signature': s, 'what': w, 'observed': o} for s, w, o in fails]}
